@@ -341,4 +341,136 @@ example : AccurateRule (fun f a b => (b - a) * f ((a + b) / 2)) (fun f a b => (b
     rw [abs_mul, abs_of_pos (by linarith : (0 : Rat) < b - a)]
     exact mul_le_mul_of_nonneg_left hm (by linarith)
 
+/-- the midpoint rule against itself, named (for the instances below) -/
+theorem midpoint_accurate :
+    AccurateRule (fun f a b => (b - a) * f ((a + b) / 2)) (fun f a b => (b - a) * f ((a + b) / 2)) 0 where
+  acc := by intro g a b M _ _; simp
+  lip := by
+    intro g g' a b D hab h
+    have hm := h ((a + b) / 2) (by linarith) (by linarith)
+    have : (b - a) * g ((a + b) / 2) - (b - a) * g' ((a + b) / 2) = (b - a) * (g ((a + b) / 2) - g' ((a + b) / 2)) := by ring
+    rw [this, abs_mul, abs_of_pos (by linarith : (0 : Rat) < b - a)]
+    exact mul_le_mul_of_nonneg_left hm (by linarith)
+  jbound := by
+    intro g a b M hab h
+    have hm := h ((a + b) / 2) (by linarith) (by linarith)
+    rw [abs_mul, abs_of_pos (by linarith : (0 : Rat) < b - a)]
+    exact mul_le_mul_of_nonneg_left hm (by linarith)
+
+/-- with ordered limits the 3-D nested result is literally `I (λx. I (λy. I (λz. f x y z) z1 z2) y1 y2) x1 x2` -/
+theorem nested_order_3D_ordered (I : Integ) (MC : MCInteg) (name : String) (m : Method)
+    (hm : parseMethod name = some m) (p : Int) (f : Rat → Rat → Rat → Rat) (x1 x2 y1 y2 z1 z2 : Rat)
+    (hx : x1 < x2) (hy : y1 < y2) (hz : z1 < z2) :
+    integrate3D I MC name p f x1 x2 y1 y2 z1 z2
+      = .ok (I m (effParam m p) (fun x => I m (effParam m p) (fun y =>
+          I m (effParam m p) (fun z => f x y z) z1 z2) y1 y2) x1 x2) := by
+  rw [nested_order_3D I MC name m hm, int1_ordered I m p _ x1 x2 hx]
+  congr 2
+  funext x
+  rw [int1_ordered I m p _ y1 y2 hy]
+  congr 1
+  funext y
+  exact int1_ordered I m p _ z1 z2 hz
+
+/-- the two-level core of `nested_accuracy_2D`, on the rule itself -/
+theorem nested2_core {I J : (Rat → Rat) → Rat → Rat → Rat} {τ : Rat} (hA : AccurateRule I J τ)
+    (f : Rat → Rat → Rat) (x1 x2 y1 y2 M : Rat) (hx : x1 < x2) (hy : y1 < y2)
+    (hM : ∀ x y, x1 ≤ x → x ≤ x2 → y1 ≤ y → y ≤ y2 → |f x y| ≤ M) :
+    |I (fun x => I (fun y => f x y) y1 y2) x1 x2 - J (fun x => J (fun y => f x y) y1 y2) x1 x2|
+      ≤ 2 * τ * ((x2 - x1) * (y2 - y1)) * M := by
+  have inner : ∀ x, x1 ≤ x → x ≤ x2 →
+      |I (fun y => f x y) y1 y2 - J (fun y => f x y) y1 y2| ≤ τ * (y2 - y1) * M :=
+    fun x h1 h2 => hA.acc _ y1 y2 M hy (fun y h3 h4 => hM x y h1 h2 h3 h4)
+  have jin : ∀ x, x1 ≤ x → x ≤ x2 → |J (fun y => f x y) y1 y2| ≤ (y2 - y1) * M :=
+    fun x h1 h2 => hA.jbound _ y1 y2 M hy (fun y h3 h4 => hM x y h1 h2 h3 h4)
+  have t1 := hA.lip (fun x => I (fun y => f x y) y1 y2) (fun x => J (fun y => f x y) y1 y2) x1 x2
+    (τ * (y2 - y1) * M) hx inner
+  have t2 := hA.acc (fun x => J (fun y => f x y) y1 y2) x1 x2 ((y2 - y1) * M) hx jin
+  have tri := abs_sub_le (I (fun x => I (fun y => f x y) y1 y2) x1 x2)
+    (I (fun x => J (fun y => f x y) y1 y2) x1 x2) (J (fun x => J (fun y => f x y) y1 y2) x1 x2)
+  calc _ ≤ _ := tri
+    _ ≤ (x2 - x1) * (τ * (y2 - y1) * M) + τ * (x2 - x1) * ((y2 - y1) * M) := add_le_add t1 t2
+    _ = 2 * τ * ((x2 - x1) * (y2 - y1)) * M := by ring
+
+/-- **nested_accuracy (3-D)**: under the same `AccurateRule` hypothesis the three-fold nested result is
+    within `3τ·volume·M` of the iterated reference integral, for every integrand bounded by `M` on the box
+    (one `τ` per nesting level: the nesting loses no more than a factor three). -/
+theorem nested_accuracy_3D (Iall : Integ) (MC : MCInteg) (name : String) (m : Method) (hm : parseMethod name = some m)
+    (p : Int) (J : (Rat → Rat) → Rat → Rat → Rat) (τ : Rat) (hτ : 0 ≤ τ)
+    (hA : AccurateRule (Iall m (effParam m p)) J τ)
+    (f : Rat → Rat → Rat → Rat) (x1 x2 y1 y2 z1 z2 M : Rat) (hx : x1 < x2) (hy : y1 < y2) (hz : z1 < z2)
+    (hM : ∀ x y z, x1 ≤ x → x ≤ x2 → y1 ≤ y → y ≤ y2 → z1 ≤ z → z ≤ z2 → |f x y z| ≤ M) :
+    ∃ v, integrate3D Iall MC name p f x1 x2 y1 y2 z1 z2 = .ok v ∧
+      |v - J (fun x => J (fun y => J (fun z => f x y z) z1 z2) y1 y2) x1 x2|
+        ≤ 3 * τ * ((x2 - x1) * (y2 - y1) * (z2 - z1)) * M := by
+  have _ := hτ
+  refine ⟨_, nested_order_3D_ordered Iall MC name m hm p f x1 x2 y1 y2 z1 z2 hx hy hz, ?_⟩
+  set I := Iall m (effParam m p) with hI
+  -- the two inner levels, uniformly in x
+  have inner : ∀ x, x1 ≤ x → x ≤ x2 →
+      |I (fun y => I (fun z => f x y z) z1 z2) y1 y2 - J (fun y => J (fun z => f x y z) z1 z2) y1 y2|
+        ≤ 2 * τ * ((y2 - y1) * (z2 - z1)) * M :=
+    fun x h1 h2 => nested2_core hA (f x) y1 y2 z1 z2 M hy hz (fun y z h3 h4 h5 h6 => hM x y z h1 h2 h3 h4 h5 h6)
+  have jz : ∀ x y, x1 ≤ x → x ≤ x2 → y1 ≤ y → y ≤ y2 → |J (fun z => f x y z) z1 z2| ≤ (z2 - z1) * M :=
+    fun x y h1 h2 h3 h4 => hA.jbound _ z1 z2 M hz (fun z h5 h6 => hM x y z h1 h2 h3 h4 h5 h6)
+  have jin : ∀ x, x1 ≤ x → x ≤ x2 →
+      |J (fun y => J (fun z => f x y z) z1 z2) y1 y2| ≤ (y2 - y1) * ((z2 - z1) * M) :=
+    fun x h1 h2 => hA.jbound _ y1 y2 ((z2 - z1) * M) hy (fun y h3 h4 => jz x y h1 h2 h3 h4)
+  have t1 := hA.lip (fun x => I (fun y => I (fun z => f x y z) z1 z2) y1 y2)
+    (fun x => J (fun y => J (fun z => f x y z) z1 z2) y1 y2) x1 x2 (2 * τ * ((y2 - y1) * (z2 - z1)) * M) hx inner
+  have t2 := hA.acc (fun x => J (fun y => J (fun z => f x y z) z1 z2) y1 y2) x1 x2
+    ((y2 - y1) * ((z2 - z1) * M)) hx jin
+  have tri := abs_sub_le (I (fun x => I (fun y => I (fun z => f x y z) z1 z2) y1 y2) x1 x2)
+    (I (fun x => J (fun y => J (fun z => f x y z) z1 z2) y1 y2) x1 x2)
+    (J (fun x => J (fun y => J (fun z => f x y z) z1 z2) y1 y2) x1 x2)
+  calc _ ≤ _ := tri
+    _ ≤ (x2 - x1) * (2 * τ * ((y2 - y1) * (z2 - z1)) * M) + τ * (x2 - x1) * ((y2 - y1) * ((z2 - z1) * M)) :=
+        add_le_add t1 t2
+    _ = 3 * τ * ((x2 - x1) * (y2 - y1) * (z2 - z1)) * M := by ring
+
+/-- non-vacuity: the midpoint rule (all methods), the integrand `x + y·z` on `[0,1]×[0,2]×[-1,1]`, bound `M = 3` -/
+example : ∃ v, integrate3D (fun _ _ f a b => (b - a) * f ((a + b) / 2)) (fun _ _ _ _ => 0) "Trapezoidal" 0
+      (fun x y z => x + y * z) 0 1 0 2 (-1) 1 = .ok v ∧
+    |v - (fun f a b => (b - a) * f ((a + b) / 2)) (fun x => (fun f a b => (b - a) * f ((a + b) / 2)) (fun y =>
+        (fun f a b => (b - a) * f ((a + b) / 2)) (fun z => x + y * z) (-1) 1) 0 2) 0 1|
+      ≤ 3 * 0 * ((1 - 0) * (2 - 0) * (1 - (-1))) * 3 :=
+  nested_accuracy_3D (fun _ _ f a b => (b - a) * f ((a + b) / 2)) (fun _ _ _ _ => 0) "Trapezoidal" .trapezoidal
+    (by decide) 0 _ 0 (le_refl _) midpoint_accurate (fun x y z => x + y * z) 0 1 0 2 (-1) 1 3
+    (by norm_num) (by norm_num) (by norm_num)
+    (by
+      intro x y z h1 h2 h3 h4 h5 h6
+      rw [abs_le]
+      constructor <;> nlinarith [mul_nonneg h3 (show 0 ≤ z + 1 by linarith), mul_nonneg h3 (show 0 ≤ 1 - z by linarith)])
+
+/-! ## [T1] spherical_full_sphere -/
+
+/-- **spherical_full_sphere**: for a radial `f(v) = g(‖v‖)`, a rule that is homogeneous and exact on constants,
+    and the limits of the full sphere `r ∈ [r1,r2]`, `cos θ ∈ [-1,1]`, `φ ∈ [0,2π]` (`π` any number — the
+    library passes its own constant) the spherical overload returns `4π·∫ r² g(r) dr`. -/
+theorem spherical_full_sphere (I : Integ) (hI : Homogeneous I) (hC : ExactOnConstants I) (MC : MCInteg)
+    (sph : Rat → Rat → Rat → Vec3) (acos : Rat → Rat) (nrm : Vec3 → Rat) (hn : ∀ r th ph, nrm (sph r th ph) = r)
+    (name : String) (m : Method) (hm : parseMethod name = some m) (p : Int) (g : Rat → Rat)
+    (r1 r2 pi : Rat) :
+    integrate3Dsph I MC sph acos name p (fun v => g (nrm v)) r1 r2 (-1) 1 0 (2 * pi)
+      = .ok (4 * pi * int1 I m p (fun r => r * r * g r) r1 r2) := by
+  rw [spherical_radial I hI hC MC sph acos nrm hn name m hm p g r1 r2 (-1) 1 0 (2 * pi)]
+  congr 1; ring
+
+/-- … and the same value with BOTH angular pairs of limits reversed (two sign changes cancel; cf. finding C13-g) -/
+theorem spherical_full_sphere_reversed (I : Integ) (hI : Homogeneous I) (hC : ExactOnConstants I) (MC : MCInteg)
+    (sph : Rat → Rat → Rat → Vec3) (acos : Rat → Rat) (nrm : Vec3 → Rat) (hn : ∀ r th ph, nrm (sph r th ph) = r)
+    (name : String) (m : Method) (hm : parseMethod name = some m) (p : Int) (g : Rat → Rat)
+    (r1 r2 pi : Rat) :
+    integrate3Dsph I MC sph acos name p (fun v => g (nrm v)) r1 r2 1 (-1) (2 * pi) 0
+      = .ok (4 * pi * int1 I m p (fun r => r * r * g r) r1 r2) := by
+  rw [spherical_radial I hI hC MC sph acos nrm hn name m hm p g r1 r2 1 (-1) (2 * pi) 0]
+  congr 1; ring
+
+/-- non-vacuity: the midpoint rule is homogeneous and exact on constants; `sph r θ φ = (r,θ,φ)` with the norm
+    read off the first component satisfies `hn` (the real `Spherical_Coordinates`/`Norm` pair: C16) -/
+example : ∃ (I : Integ) (sph : Rat → Rat → Rat → Vec3) (nrm : Vec3 → Rat),
+    Homogeneous I ∧ ExactOnConstants I ∧ (∀ r th ph, nrm (sph r th ph) = r) ∧ parseMethod "Gauss-Legendre" = some .gaussLegendre :=
+  ⟨fun _ _ f a b => (b - a) * f ((a + b) / 2), fun r th ph => (r, th, ph), fun v => v.1,
+    by intro m q c g a b; ring, by intro m q c a b; ring, fun _ _ _ => rfl, by decide⟩
+
 end Lp.C13
